@@ -61,15 +61,19 @@ def insertSorted (x : Nat) : List Nat → List Nat
 
 def sortNat (xs : List Nat) : List Nat := xs.foldr insertSorted []
 
-/-- `.cx` with a spatial index built with page size `ps` on rows permuted by `perm`:
-`np.sort(concatenate([covers, overlaps[intersects_bounds(box, overlaps)]]))` -/
-def cxIndexed (ps : Nat) (perm : List Nat) (b : Box) (els : List (Option Elem)) : List Nat :=
-  let rows : List Row := ((List.range els.length).zip els).filterMap
-    (fun (i, e) => (elemBounds e).map (fun bb => (i, bb)))
-  let sorted : List Row := if perm.isEmpty then rows else perm.filterMap (fun k => rows.find? (fun r => r.1 == k))
-  let t := buildTree ps sorted
-  let q : NBox := [b.x0, b.y0, b.x1, b.y1]
-  let co := coversOverlaps 2 t q
+/-- rows of the bounds array that have bounds, with their position (rows without bounds are not indexed) -/
+def validRows (els : List (Option Elem)) : List Row :=
+  ((List.range els.length).zip els).filterMap (fun (i, e) => (elemBounds e).map (fun bb => (i, bb)))
+
+/-- the indexed path on a given tree: `np.sort(concatenate([covers, overlaps[intersects_bounds(box, overlaps)]]))` -/
+def cxFromTree (t : PTree) (b : Box) (els : List (Option Elem)) : List Nat :=
+  let co := coversOverlaps 2 t [b.x0, b.y0, b.x1, b.y1]
   sortNat (co.1 ++ co.2.filter (fun i => elemIB b (els.getD i none)))
+
+/-- `.cx` with a spatial index built with page size `ps` on the valid rows permuted by `perm` (empty = as they come) -/
+def cxIndexed (ps : Nat) (perm : List Nat) (b : Box) (els : List (Option Elem)) : List Nat :=
+  let rows := validRows els
+  let sorted : List Row := if perm.isEmpty then rows else perm.filterMap (fun k => rows.find? (fun r => r.1 == k))
+  cxFromTree (buildTree ps sorted) b els
 
 end SpVerif.Frames
